@@ -393,6 +393,9 @@ def topological_sort(nodes):
     def model_sort_rotate():
         node = nodes[index]
         for dep in node.dependencies():
+            owner = enumerator_owners.get(dep)
+            if owner and owner != node.name:
+                dep = owner
             if dep not in known and dep in available:
                 found_index = find_first_dep(dep, index + 1)
                 if found_index:
@@ -402,6 +405,8 @@ def topological_sort(nodes):
 
     known = set(x + y for x in "uir" for y in ["8", "16", "32", "64"])
     available = set(node.name for node in nodes)
+    enumerator_owners = dict((member.name, node.name) for node in nodes if isinstance(node, Enum)
+                             for member in node.members)
     for index in range(len(nodes)):
         while model_sort_rotate():
             pass
